@@ -481,7 +481,7 @@ class Doc:
         for ch in cp:
             if not isinstance(ch.tag, str):
                 continue
-            for (subs, rule) in self._clip_child(ch, Mc, depth):
+            for (subs, rule) in self._clip_child(ch, Mc, depth, inherited=self.props(cp, DEFAULTS)[0]):
                 parts.append((subs, rule))
                 self.edges.append(subs)
         # a clip-path on the clipPath itself lives in the clipPath's own coordinate system, i.e. including its transform
@@ -495,9 +495,10 @@ class Doc:
 
         return inside
 
-    def _clip_child(self, ch, M, depth):
+    def _clip_child(self, ch, M, depth, inherited=None):
         t = etree.QName(ch).localname
-        props, own = self.props(ch, DEFAULTS)
+        # clip-rule is an inherited property: a child without its own value takes the clipPath's (SVG 1.1 14.3.5 / property index)
+        props, own = self.props(ch, inherited or DEFAULTS)
         if own.get("display") == "none":
             return []
         Mc = mul(M, parse_transform(ch.get("transform", "")))
@@ -506,12 +507,12 @@ class Doc:
             if tgt is None:
                 raise ValueError("dangling use")
             Mu = mul(Mc, (1, 0, 0, 1, float(ch.get("x", 0)), float(ch.get("y", 0))))
-            return self._clip_child(tgt, Mu, depth + 1)
+            return self._clip_child(tgt, Mu, depth + 1, inherited=props)
         subs = shape_subpaths(ch)
         if subs is None:
             return []
         subs_c = [([apply(Mc, p) for p in pts], c) for pts, c in subs]
-        rule = own.get("clip-rule", "nonzero")
+        rule = props.get("clip-rule", "nonzero")
         # a clip child may itself be clipped
         if own.get("clip-path"):
             inner = self.clip_region(own["clip-path"], Mc, depth + 1)
